@@ -46,6 +46,8 @@ def run(rep, tier):
         reset(rep, c, sfx)
         errctor(rep, c, sfx)
         position(rep, c, sfx)
+        maxpos(rep, c, sfx)
+        nopanic(rep, c, sfx)
 
 
 def is_enabled_cond(cond):
@@ -365,3 +367,144 @@ def position(rep, c, sfx):
         rr.desc = ("offsets handed to the unchecked Position/Span constructors (including the help-message position "
                    "in Error::parse_attempts_error) are taken unchanged from an existing position, span, token or "
                    "max_position / attempt_pos - never computed")
+
+
+def maxpos(rep, c, sfx):
+    """Inter-procedural provenance of ParseAttempts.max_position (the offset the help message is rendered at)."""
+    from . import c03
+    r = rep.rule("C15.MAXPOS" + sfx, 2,
+                 "every value stored in ParseAttempts.max_position is an offset read from a Position (pos()), from "
+                 "max_position itself, or 0 - directly, through immutable lets, or through a parameter all of whose call "
+                 "sites pass such a value; never the result of arithmetic (a computed offset may fall inside a "
+                 "multi-byte character, and rendering the help message then panics)")
+    cg = hirq.CallGraph([c])
+
+    def ok_source(e, fn, depth, trail):
+        e0 = peel(e)
+        if kind(e0) == "Lit" and hirq.lit_value(e0) == 0:
+            return "0"
+        lets = hirq.lets(fn["body"])
+        s = c03.offset_source(e, lets, fn)
+        if s:
+            return s
+        # resolve through lets to a parameter
+        d = 0
+        while d < 6 and kind(e0) == "Path" and e0.get("res") == "local" and e0["id"] in lets:
+            e0 = peel(lets[e0["id"]][0])
+            d += 1
+        if kind(e0) == "Path" and e0.get("res") == "local":
+            idx = [i for i, p in enumerate(fn["params"]) if p.get("k") == "PBind" and p["id"] == e0["id"]]
+            if idx and depth < 4 and fn["path"] not in trail:
+                sites = cg.callers_of(fn["path"])
+                if not sites:
+                    return None
+                out = []
+                for (p, n) in sites:
+                    caller = c.fn(p)
+                    args = hirq.call_args(n)
+                    if caller is None or idx[0] >= len(args):
+                        return None
+                    s2 = ok_source(args[idx[0]], caller, depth + 1, trail + (fn["path"],))
+                    if not s2:
+                        bad_sites.append((p, n, args[idx[0]]))
+                        return None
+                    out.append(s2)
+                return "param(%s)" % ",".join(sorted(set(out)))
+        return None
+
+    n = 0
+    for fn in c.bodies:
+        if fn.get("body") is None or "::tests::" in fn["path"] or fn.get("exp"):
+            continue
+        for x in walk(fn["body"]):
+            if kind(x) == "Assign" and kind(peel(x["l"])) == "Field" and peel(x["l"])["name"] == "max_position":
+                n += 1
+                bad_sites = []
+                key = "write:%s" % fn["path"].replace("pest::parser_state::", "")
+                s = ok_source(x["r"], fn, 0, ())
+                r.instance(key, where(x), s or "?")
+                if not s:
+                    if bad_sites:
+                        (p, cn, a) = bad_sites[0]
+                        r.violation(key, where(cn), "max_position receives `%s` from %s, which is not an offset read from a "
+                                    "position" % (hirq.expr_text(a)[:80], p))
+                    else:
+                        r.violation(key, where(x), "max_position is assigned `%s`, which is not an offset read from a "
+                                    "position" % hirq.expr_text(x["r"])[:80])
+    if n == 0:
+        r.lost("assignments to ParseAttempts.max_position")
+
+
+ATTEMPT_TYPES = ("pest::parser_state::ParseAttempts", "pest::parser_state::RulesCallStack",
+                 "pest::parser_state::ParsingToken", "pest::parser_state::ParseAttempt")
+
+
+def panic_sites(node):
+    out = []
+    for x in walk(node):
+        cal = callee(x) if kind(x) in ("Call", "MethodCall") else None
+        if isinstance(cal, str) and (cal in hirq.PANIC_CALLEES or cal in (
+                "core::option::Option::unwrap", "core::option::Option::expect", "core::result::Result::unwrap",
+                "core::result::Result::expect", "core::result::Result::unwrap_err", "core::result::Result::expect_err")):
+            exp = " ".join(x.get("exp") or [])
+            what = "assert!" if "assert" in exp else ("unreachable!" if "unreachable" in exp else (
+                "panic!" if "panic" in exp else cal.split("::")[-1] + "()"))
+            out.append((what, x))
+    return out
+
+
+def nopanic(rep, c, sfx):
+    r = rep.rule("C15.NOPANIC" + sfx, 10,
+                 "code that runs only when error detail is on - the methods of ParseAttempts / RulesCallStack / "
+                 "ParsingToken, the error-module functions that read them, and every block guarded by "
+                 "`parse_attempts.enabled` - contains no explicit panic site (panic!, assert!, unreachable!, unwrap, expect)")
+    fam = [b for b in c.bodies if b.get("impl_self") in ATTEMPT_TYPES and not b.get("exp") and b.get("body") is not None]
+    fam_paths = set(b["path"] for b in fam)
+    readers = []
+    for b in c.bodies:
+        if b.get("body") is None or "::tests::" in b["path"] or b["path"] in fam_paths or b.get("exp"):
+            continue
+        if any(kind(x) in ("Call", "MethodCall") and callee(x) in fam_paths for x in walk(b["body"])) \
+                and b["path"].startswith("pest::error::"):
+            readers.append(b)
+    for b in fam + readers:
+        key = "fn:" + b["path"].replace("pest::", "")
+        r.instance(key, where(b["body"]))
+        for (what, x) in panic_sites(b["body"]):
+            r.violation(key, where(x), "%s in %s: with error detail on this can panic where the plain parse returns a "
+                        "result (e.g. a failure at a position where no token was recorded)" % (what, b["path"]))
+    nblocks = 0
+    helpers = {}
+    guarded_nodes = set()
+    for b in c.bodies:
+        if b.get("body") is None or "::tests::" in b["path"] or b.get("exp"):
+            continue
+        for x in walk(b["body"]):
+            if kind(x) == "If" and any(kind(y) == "Field" and y["name"] == "enabled" and "ParseAttempts" in y.get("bty", "")
+                                       for y in walk(x["cond"])):
+                nblocks += 1
+                key = "guarded:" + b["path"].replace("pest::", "")
+                r.instance(key, where(x))
+                for (what, y) in panic_sites(x["then"]):
+                    r.violation(key, where(y), "%s inside an `enabled` block of %s" % (what, b["path"]))
+                for y in walk(x["then"]):
+                    guarded_nodes.add(id(y))
+                # crate-private functions called only from such blocks run under the same condition
+                for y in walk(x["then"]):
+                    cal = callee(y) if kind(y) in ("Call", "MethodCall") else None
+                    h = c.fn(cal) if isinstance(cal, str) and cal.startswith("pest::") else None
+                    if h is not None and not h.get("exported") and h["path"] not in fam_paths and h["path"] not in helpers:
+                        helpers[h["path"]] = h
+    cg = hirq.CallGraph([c])
+    exclusive = {}
+    for hp, h in sorted(helpers.items()):
+        sites = cg.callers_of(hp)
+        if sites and all(id(n) in guarded_nodes or p in fam_paths or p in helpers for (p, n) in sites):
+            exclusive[hp] = h
+    for hp, h in sorted(exclusive.items()):
+        key = "helper:" + hp.replace("pest::", "")
+        r.instance(key, where(h["body"]))
+        for (what, y) in panic_sites(h["body"]):
+            r.violation(key, where(y), "%s in %s, which runs only when error detail is on" % (what, hp))
+    if nblocks == 0:
+        r.lost("blocks guarded by parse_attempts.enabled")
